@@ -6,6 +6,7 @@ import numpy as np
 
 from magpylib._src.display.display import show
 from magpylib._src.display.traces_core import make_DefaultTrace
+from magpylib._src.utility import get_style_label
 
 UNITS = {
     "parent": None,
@@ -109,7 +110,8 @@ class BaseDisplayRepr:
 
     def __repr__(self) -> str:
         name = getattr(self, "name", None)
-        if name is None and hasattr(self, "style"):
-            name = getattr(getattr(self, "style"), "label", None)
+        if name is None:
+            # reading the label must not create the (lazily created) style object
+            name = get_style_label(self)
         name_str = "" if name is None else f", label={name!r}"
         return f"{type(self).__name__}(id={id(self)!r}{name_str})"
